@@ -280,7 +280,10 @@ impl<T: PrimInt + FromPrimitive + Hash + IntHelp + Sized> IntKmer<T> {
 
     #[inline(always)]
     pub fn bottom_mask(n_bases: usize) -> T {
-        if n_bases > 0 {
+        if n_bases * 2 >= Self::_bits() {
+            // the whole word (shifting by the full width would overflow)
+            !T::zero()
+        } else if n_bases > 0 {
             // first pos bases
             let one = T::one();
             (one << (n_bases * 2)) - one
